@@ -461,7 +461,8 @@ Section Parser.
             match rk with
             | Some _ => p_range
             | None =>
-                match ts with
+                now <- get_toks ;;                           (* input.peek(syn::LitStr) *)
+                match now with
                 | TTLit (LStr v) text sp :: _ =>
                     advance 1 ;;; id <- fresh ;; ret (PString id text sp v)
                 | _ => p_simple
